@@ -52,7 +52,8 @@ goroutine — what an uncontained panic of the coordinator's inline poll used to
 pre- and post-processors), `wPanic` (panic inside a worker goroutine — the
 check pipeline) and `pollPanic` (panic inside the poll the coordinator's own
 goroutine performs — the transmit-event provider).  Which of them are contained
-is a parameter (`Fixes`): the current tree contains all three.
+is a parameter (`Fixes`): the current tree contains all of them — also `v2PollPanic`, the same for the OCR2
+report coordinator's log poll, which runs on a bare goroutine.
 -/
 namespace AutoVerif.C18
 
@@ -220,6 +221,8 @@ inductive Label
   | wFinish   -- a worker goroutine returns
   | wPanic    -- a worker goroutine panics (the check pipeline called from `wrapWorkerFunc`)
   | pollPanic -- the poll run by the service's own goroutine panics (coordinator.run → checkEvents → GetLatestEvents)
+  | v2PollPanic -- the OCR2 report coordinator's log poll panics (reportCoordinator.run → checkLogs → PerformLogs /
+                -- StaleReportLogs / the encoder): `run` is a bare goroutine (`go rc.run()`), no recoverer above it
 deriving DecidableEq, Repr
 
 /-- which panics the tree contains where they are raised:
@@ -233,10 +236,12 @@ structure Fixes where
   ticker : Bool
   worker : Bool
   poll   : Bool
+  v2poll : Bool   -- pkg/v2/coordinator/coordinator.go — `run` calls `safeCheckLogs` ("fix: v2 coordinator: a panic while polling
+                  -- perform and stale report logs no longer kills the process")
 deriving DecidableEq, Repr
 
 /-- the tree as it is now -/
-def current : Fixes := { ticker := true, worker := true, poll := true }
+def current : Fixes := { ticker := true, worker := true, poll := true, v2poll := true }
 
 def step (fx : Fixes) (s : State) : Label → Option State
   | .core l => if s.crashed then none else (stepCore s.core l).map fun c => { s with core := c }
@@ -256,6 +261,10 @@ def step (fx : Fixes) (s : State) : Label → Option State
     if s.crashed ∨ s.core.nRun = 0 then none
     else if fx.poll then some s                                      -- an error for this poll; the loop goes on to the next one
     else (stepCore s.core .gPanic).map fun c => { s with core := c }  -- escapes into the service goroutine: `gPanic`
+  | .v2PollPanic =>
+    if s.crashed ∨ s.core.nRun = 0 then none
+    else if fx.v2poll then some s               -- an error for this poll, logged; the loop goes on to the next one
+    else some { s with crashed := true }        -- nothing between the panic and the top of a bare goroutine
 
 def runC : Core → List CLabel → Option Core
   | c, [] => some c
